@@ -44,6 +44,13 @@ RECURSIVE CpsFrom(_, _)
 CpsFrom(s, i) == IF i > Len(s) THEN <<>> ELSE <<Ord(SubSeq(s, i, i))>> \o CpsFrom(s, i + 1)
 Cps(s) == CpsFrom(s, 1)
 
+\* (every Cps("...") used by an operator is a named constant: TLC evaluates a
+\* constant definition once, whereas Ord creates and interns strings on every call)
+W_true  == Cps("true")
+W_false == Cps("false")
+W_stop  == Cps("stop")
+W_liberal == {Cps("nan"), Cps("inf"), Cps("1e3")}
+
 SPACE == 32
 TAB   == 9
 WS    == {SPACE, TAB}                 \* the grammar's WS : [ \t]+
@@ -93,14 +100,18 @@ IsLiberalNumber(w) ==
   LET u == IF Len(w) > 1 /\ w[1] = 45 THEN Tail(w) ELSE w IN
   \/ (Len(u) > 1 /\ u[1] = 46 /\ AllDigits(Tail(u)))                      \* .5
   \/ (Len(u) > 1 /\ u[Len(u)] = 46 /\ AllDigits(SubSeq(u, 1, Len(u) - 1))) \* 5.
-  \/ u \in {Cps("nan"), Cps("inf"), Cps("1e3")}
+  \/ u \in W_liberal
 
+\* the property's rule
 TypedWord(w) ==
-  IF w = Cps("true") THEN BoolV(TRUE)
-  ELSE IF w = Cps("false") THEN BoolV(FALSE)
+  IF w = W_true THEN BoolV(TRUE)
+  ELSE IF w = W_false THEN BoolV(FALSE)
   ELSE IF IsDecimal(w) THEN DecimalValue(w)
-  ELSE IF Bug_LiberalNumbers /\ IsLiberalNumber(w) THEN NumV(0, 1)
   ELSE StrV(w)
+
+\* the rule the pipeline applies (the same, unless the switch is on)
+PipelineTypedWord(w) ==
+  IF Bug_LiberalNumbers /\ ~IsDecimal(w) /\ IsLiberalNumber(w) THEN NumV(0, 1) ELSE TypedWord(w)
 
 \* ------------------------------------------------------- declarative meaning
 \* an item is [k |-> "w", w |-> code points] or [k |-> "e", v |-> value]
@@ -118,7 +129,7 @@ NameIsGeneric(name, followedByWs) ==
   /\ ~ \E p \in KwNoWs : StartsWith(name, p)
   /\ ~ (followedByWs /\ name \in KwNeedWs)
 
-Stop == Cps("stop")
+Stop == W_stop
 
 \* result of executing one command statement
 \*   outcome "call": the handler `name` is invoked once with `args`
@@ -169,7 +180,7 @@ SplitWords(s, i, acc) ==
   ELSE IF s[i] \in SplitSet THEN flush \o SplitWords(s, i + 1, <<>>)
   ELSE SplitWords(s, i + 1, Append(acc, s[i]))
 
-WordsToValues(ws) == [i \in 1..Len(ws) |-> TypedWord(ws[i])]
+WordsToValues(ws) == [i \in 1..Len(ws) |-> PipelineTypedWord(ws[i])]
 
 \* CommandStatement.rearrange: accumulate adjacent texts; at an expression or at
 \* the end split the accumulated text into words
